@@ -1,15 +1,22 @@
 ----------------------------- MODULE MC_C06_ops -----------------------------
 (* C06 on the operators contract: the operator set changes and ownership moves    *)
 (* only with the current owner's authorisation; every principal as sole authoriser. *)
-EXTENDS Operators, Json, SequencesExt
+EXTENDS Operators, Json, SequencesExt, AuthShapes
 VARIABLE st
 Auths == {{p} : p \in Accts} \cup {{}}
 Acts(s) ==
     {[name |-> n, acct |-> x, auth |-> au] : n \in {"AddOperator", "RemoveOperator"}, x \in {"a", "owner0"}, au \in Auths}
     \cup {[name |-> "TransferOwnership", new |-> n, auth |-> au] : n \in {"owner0", "bob", "a"}, au \in Auths}
+    \* the migration window of the Upgradable interface is open (hidden from this module): every role check must
+    \* behave exactly as when it is closed
+    \cup {[name |-> "HookOpenWindow"]}
+    \* an entry that names the entry point but keeps only the arguments `keepArgs` (what require_auth_for_args with a subset of the
+    \* arguments would ask for) is not an authorisation of this exact call
+    \cup {[name |-> n, acct |-> "a", auth |-> {}, scopedAuth |-> {s.owner}, keepArgs |-> <<>>] : n \in {"AddOperator", "RemoveOperator"}}
+    \cup {[name |-> "TransferOwnership", new |-> "bob", auth |-> {}, scopedAuth |-> {s.owner}, keepArgs |-> <<>>]}
 Init == st = [ops |-> [x \in Accts |-> "never"], owner |-> "owner0"]
 Next == \E a \in Acts(st) : st' = Apply(st, a).post
-Step(P(_, _, _)) == \A a \in Acts(st) : P(st, a, Apply(st, a))
+Step(P(_, _, _)) == \A a \in Acts(st) : a.name # "HookOpenWindow" => P(st, a, Apply(st, a))
 OnlyHolder(s, a, r) == r.ok => s.owner \in a.auth
 Successor(s, a, r) == r.post.owner = IF a.name = "TransferOwnership" /\ r.ok THEN a.new ELSE s.owner
 Frame(s, a, r) == ~r.ok => r.post = s /\ r.ev = <<>>
